@@ -400,8 +400,31 @@ LenT       == Tok("len", "", 0)
 ArrLenT    == Tok("arrlen", "", 0)
 IotaT      == Tok("iota", "", 0)
 
+\* Directed float-rounding literals (integers; xf writes them as float literals "d.0").
+\* A midpoint of binary32 / binary64 is (2^p + odd) scaled by 2^60, so that "midpoint +- 1" is the
+\* midpoint +- 2^-60 relative: rounding once at p bits and rounding first at 53 bits, then at 24,
+\* differ on these values.  MaxFloat is 2^(emax+1) - 2^(emax+1-p); a value rounds to it below
+\* 2^(emax+1) - 2^(emax-p) and overflows from there on (the tie goes to the even 2^(emax+1)).
+MidPt(p, odd, d) == Add(Shl(Add(Pow2(p), FromInt(odd)), 60), FromInt(d))
+XVals == <<
+    MidPt(24, 1, -1), MidPt(24, 1, 0), MidPt(24, 1, 1),          \*  1.. 3: tie to even goes down
+    MidPt(24, 3, -1), MidPt(24, 3, 0), MidPt(24, 3, 1),          \*  4.. 6: tie to even goes up
+    Sub(Pow2(128), Pow2(104)),                                    \*  7: MaxFloat32
+    Pred(Sub(Pow2(128), Pow2(103))),                              \*  8: one below the overflow threshold
+    Sub(Sub(Pow2(128), Pow2(103)), Pow2(68)),                     \*  9: threshold - 2^-60 relative
+    Sub(Pow2(128), Pow2(103)),                                    \* 10: threshold: overflows float32
+    Succ(Sub(Pow2(128), Pow2(103))),                              \* 11
+    MidPt(53, 1, -1), MidPt(53, 1, 0), MidPt(53, 1, 1),          \* 12..14
+    MidPt(53, 3, -1), MidPt(53, 3, 0), MidPt(53, 3, 1),          \* 15..17
+    Sub(Pow2(1024), Pow2(971)),                                   \* 18: MaxFloat64
+    Sub(Sub(Pow2(1024), Pow2(970)), Pow2(910)),                   \* 19: threshold - 2^-60 relative
+    Sub(Pow2(1024), Pow2(970)),                                   \* 20: threshold: overflows float64
+    Add(Sub(Pow2(1024), Pow2(970)), Pow2(910)) >>                 \* 21
+XIntIdx == 1..17            \* usable as untyped integer literals (18..21 exceed 512 bits)
+
 \* literal families: i n (small decimal n), p k (2^k), pm1 k (2^k - 1), pp1 k (2^k + 1),
-\* f 1|2|3 (1.0, 0.5, 2.5e3), r n (rune literal of code n), s 1 ("ab"), b 0|1 (false, true)
+\* f 1|2|3 (1.0, 0.5, 2.5e3), r n (rune literal of code n), s 1 ("ab"), b 0|1 (false, true),
+\* x n (integer literal XVals[n]), xf n (float literal XVals[n] written with ".0")
 LitValue(o, n) ==
     CASE o = "i"   -> IntC("int", "untyped", FromInt(n))
       [] o = "p"   -> IntC("int", "untyped", Pow2(n))
@@ -411,6 +434,8 @@ LitValue(o, n) ==
                          [] n = 2 -> FloatC("untyped", One, -1)
                          [] n = 3 -> FloatC("untyped", FromInt(2500), 0))
       [] o = "r"   -> IntC("rune", "untyped", FromInt(n))
+      [] o = "x"   -> IntC("int", "untyped", XVals[n])
+      [] o = "xf"  -> FloatC("untyped", XVals[n], 0)
       [] o = "s"   -> StrC("untyped", <<97, 98>>)
       [] o = "b"   -> BoolC("untyped", n = 1)
 
@@ -494,7 +519,7 @@ UseVerdict(ctx, k, toks) ==
                 ELSE Ok(IntC("int", "uint64", IF Cmp(v, FromInt(64)) >= 0 THEN Zero ELSE Pow2(MSmall(v.mag))))
     ELSE LET v == From1(ConvNumTo(r.c, k, ctx, "untyped"), r)
              w == IF v.st = "reject" THEN [v EXCEPT !.why.root = RootKind(toks)] ELSE v
-         IN AddTags(w, DeclTags(toks, k, 0)
+         IN AddTags(w, (IF ctx \in {"constdecl", "vardecl", "assign", "opassign"} THEN DeclTags(toks, k, 0) ELSE {})
                        \cup (IF IsIntCls(r.c) /\ ~RepInt(r.c.i, "int64") THEN {"src-beyond-int64"} ELSE {}))
 
 -------------------------------------------------------------------------------
@@ -557,13 +582,16 @@ TabLits == {Lit("i", n) : n \in {0, 1, -1, 3, 10, 255}}
            \cup {Lit(o, k) : o \in {"p", "pm1", "pp1"}, k \in {7, 8, 15, 16, 24, 31, 32, 53, 63, 64, 100, 200}}
            \cup {Lit("r", 97)}
 LitDecTab == [t \in TabLits |-> ToDec(LitValue(t.o, t.n).i)]
-LitDec(t) == IF t \in TabLits THEN LitDecTab[t] ELSE ToDec(LitValue(t.o, t.n).i)
+XDecTab == [n \in 1..Len(XVals) |-> ToDec(XVals[n])]
+LitDec(t) == IF t \in TabLits THEN LitDecTab[t]
+             ELSE IF t.o \in {"x", "xf"} THEN XDecTab[t.n]
+             ELSE ToDec(LitValue(t.o, t.n).i)
 \* decimal renderings of the integer literals of an expression, in order of appearance
 RECURSIVE LitDecs(_)
 LitDecs(toks) ==
     IF toks = <<>> THEN <<>>
     ELSE LET t == toks[1]
-         IN (IF t.k = "lit" /\ t.o \in {"i", "p", "pm1", "pp1", "r"} THEN <<LitDec(t)>> ELSE <<>>)
+         IN (IF t.k = "lit" /\ t.o \in {"i", "p", "pm1", "pp1", "r", "x", "xf"} THEN <<LitDec(t)>> ELSE <<>>)
             \o LitDecs(Tail(toks))
 
 Emitted(st) == st \in {"ok", "reject"}
@@ -628,6 +656,17 @@ E3Trees(z) ==
 \* use contexts: boundary values per kind
 Ctxs == {"constdecl", "vardecl", "assign", "opassign", "callarg", "return", "elem-slice", "elem-array",
          "elem-mapkey", "elem-mapval", "elem-struct", "binop-var", "cmp-var"}
+\* contexts of the directed float-rounding literals: those through which an untyped constant
+\* reaches a float type (conv is the explicit conversion T(c))
+RoundCtxs == {"conv", "constdecl", "vardecl", "assign", "callarg", "return", "elem-slice", "elem-struct", "binop-var"}
+RoundToks ==
+       {<<Lit("x", n)>> : n \in XIntIdx} \cup {<<Lit("xf", n)>> : n \in 1..Len(XVals)}
+  \cup { \* 1 + 2^-24 + 2^-60 (just above the midpoint of 1 and 1 + 2^-23) and its float64 analogue
+         <<Lit("i", 1), Lit("f", 1), Lit("p", 24), BinT("/"), BinT("+"), Lit("f", 1), Lit("p", 60), BinT("/"), BinT("+")>>,
+         <<Lit("i", 1), Lit("f", 1), Lit("p", 53), BinT("/"), BinT("+"), Lit("f", 1), Lit("p", 100), BinT("/"), BinT("+")>>,
+         \* 1<<128 - 1<<103 - 1 (rounds to MaxFloat32) and 1<<128 - 1<<103 (overflows float32)
+         <<Lit("p", 128), Lit("p", 103), BinT("-"), Lit("i", 1), BinT("-")>>,
+         <<Lit("p", 128), Lit("p", 103), BinT("-")>> }
 \* boundary expressions for a kind of width w: literal families of the model
 BoundaryToks(k) ==
     LET w == Width(k)
@@ -667,6 +706,8 @@ BlockCase(specs, pl)  == [tier |-> "block", ctx |-> "", kind |-> "", toks |-> <<
 UseCasesAll(z) ==
        UNION {{UseCase(ctx, k, t) : ctx \in Ctxs, t \in BoundaryToks(k)} : k \in IntKinds}
   \cup UNION {{UseCase(ctx, k, t) : ctx \in Ctxs, t \in FloatBoundaryToks(k)} : k \in FloatKinds}
+  \cup {UseCase(ctx, k, t) : ctx \in RoundCtxs, k \in FloatKinds, t \in RoundToks}
+  \cup {UseCase("conv", k, t) : k \in IntKinds, t \in BoundaryToks("int8") \cup BoundaryToks("uint64")}
   \cup {UseCase("arraylen", "int", t) : t \in ArrayLenToks}
   \cup {UseCase("shiftcount", "uint", t) : t \in ShiftCountToks}
 
